@@ -16,7 +16,7 @@ type Agents struct {
 	// Noise is sent in front of the browser's own cookies (other applications' cookies, valueless crumbs).
 	Noise map[int]string
 	// Scheme of the requests of a browser as Envoy reports it ("" = https).
-	Scheme map[int]string
+	Scheme   map[int]string
 	w        *World
 	Browsers map[int]*Browser
 	// history of session ids each browser held per filter (for "stale" cookies)
